@@ -34,12 +34,22 @@ def check(ctx: Ctx) -> None:
 
 
 def _assigns(ctx: Ctx, f: FunctionInfo, h: ast.ExceptHandler, name: str, value: object) -> bool:
-    for n in ctx.cfg(f).nodes:
+    """The handler forces the flag that the guarded try-body computes to `value` (the flag is found by role: the variable
+    the try body assigns)."""
+    g = ctx.cfg(f)
+    t = next((x.stmt for x in g.nodes if x.kind == "handler" and x.ast is h), None)
+    body_vars = {tg.id for n in g.nodes if n.kind == "stmt" and t is not None and in_try_body(n, t) and isinstance(n.ast, ast.Assign)
+                 for tg in n.ast.targets if isinstance(tg, ast.Name)}
+    for n in g.nodes:
         if n.kind == "stmt" and in_handler(n, h) and isinstance(n.ast, ast.Assign) \
-                and any(isinstance(t, ast.Name) and t.id == name for t in n.ast.targets) \
+                and any(isinstance(tg, ast.Name) and tg.id in body_vars for tg in n.ast.targets) \
                 and isinstance(n.ast.value, ast.Constant) and n.ast.value.value is value:
             return True
     return False
+
+
+def _returned_names(ctx: Ctx, f: FunctionInfo) -> Set[str]:
+    return {norm_text(n.ast.value) for n in ctx.cfg(f).nodes if n.kind == "return" and n.ast is not None and n.ast.value is not None}  # type: ignore[union-attr]
 
 
 def _calls_in_handler(ctx: Ctx, f: FunctionInfo, h: ast.ExceptHandler) -> List[Node]:
@@ -59,7 +69,7 @@ def conservative_table() -> Dict[Tuple[str, str], Tuple[str, Callable[[Ctx, Func
         ("_load_inflight_protection", "delete_file"): (
             "stale marker could not be removed: its file stays protected (protected.add)",
             lambda c, f, h: any(isinstance(n.ast, ast.Call) and isinstance(n.ast.func, ast.Attribute) and n.ast.func.attr == "add"
-                                and "protected" in norm_text(n.ast.func.value) for n in _calls_in_handler(c, f, h))),
+                                and norm_text(n.ast.func.value) in _returned_names(c, f) for n in _calls_in_handler(c, f, h))),
         ("_gc_prefix", "delete_file+get_modified_time"): (
             "stat/delete of one orphan failed: nothing is deleted for it, nothing live is at risk",
             lambda c, f, h: _no_delete(c, f, h)),
@@ -161,7 +171,10 @@ def r3(ctx: Ctx) -> None:
     g = ctx.cfg(gp)
     dom = ctx.dom(gp, NORMAL)
     esc = [b for b in g.nodes if b.kind == "branch" and b.ast is not None and ("'..'" in norm_text(b.ast) or "'../'" in norm_text(b.ast))]
-    mem = [b for b in g.nodes if b.kind == "branch" and isinstance(b.ast, ast.Compare) and "reachable_set" in b.text]
+    from .c05 import membership_param
+    mp = membership_param(ctx)
+    mem = [b for b in g.nodes if b.kind == "branch" and isinstance(b.ast, ast.Compare)
+           and isinstance(b.ast.ops[0], (ast.NotIn, ast.In)) and mp in names_in(b.ast.comparators[0])]
     ok = bool(esc) and bool(mem)
     for m in mem:
         ok = ok and all(e.id in dom[m.id] for e in esc)
